@@ -4,7 +4,6 @@ Property theorems only; the model is `Model/Database.lean`, the regenerated tabl
 -/
 import PrimaiteModel.Model.Database
 import PrimaiteModel.Gen.Database
-import PrimaiteModel.Gen.DatabaseTr
 import PrimaiteModel.Lemmas.DatabaseReach
 namespace Primaite.Database
 
@@ -1367,45 +1366,7 @@ theorem C17_unavailable_connect_query (st : State) (i : Nat)
   · intro cid q
     simp [State.rawQuery, hs]
 
-/-! ## 9. The translated source equals the model (`Gen/DatabaseTr.lean`, harness/extract/database_tr.py)
-
-`_process_sql`, `_process_connect` and `IOSoftware.add_connection` are translated statement by statement from the source on
-every run; the theorems below prove the translated functions equal to the hand-written model for every server state and
-every argument.  A changed guard, operator, status code, branch order or written value in the source changes the generated
-definition and these proofs stop checking. -/
-
-set_option linter.unusedSimpArgs false in
-/-- `_process_sql` as translated = the model's `processSql`, and an answer carries the query's uuid (which is what the
-client counts as success) exactly when its status is 200. -/
-theorem C17_tr_process_sql (s : Server) (q : Sql) :
-    ((Gen.DatabaseTr.processSql s q).1, (Gen.DatabaseTr.processSql s q).2.1) = processSql s q ∧
-    (Gen.DatabaseTr.processSql s q).2.2 = ((Gen.DatabaseTr.processSql s q).2.1 == 200) := by
-  unfold Gen.DatabaseTr.processSql processSql
-  cases hf : s.file with
-  | none => simp
-  | some fh =>
-    by_cases hh : s.health = .good
-    · cases q <;> cases fh <;> simp [hh]
-    · simp [hh]
-
-set_option linter.unusedSimpArgs false in
-/-- `_process_connect` (with `add_connection` inlined) as translated = the model's `processConnect`, for every server
-state in which the id about to be issued is not in the table (uuid4 freshness; `C17_tr_fresh_of_wf`); the id is visible
-to the client only when `response` is true, and `response` is `status_code == 200`. -/
-theorem C17_tr_process_connect (s : Server) (owner : Nat) (pw : Option Nat) (hfresh : s.hasConn s.nextId = false) :
-    ((Gen.DatabaseTr.processConnect s owner pw).1, (Gen.DatabaseTr.processConnect s owner pw).2.1,
-      if (Gen.DatabaseTr.processConnect s owner pw).2.2.1 then (Gen.DatabaseTr.processConnect s owner pw).2.2.2 else none)
-      = processConnect s owner pw ∧
-    (Gen.DatabaseTr.processConnect s owner pw).2.2.1 = ((Gen.DatabaseTr.processConnect s owner pw).2.1 == 200) := by
-  unfold Gen.DatabaseTr.processConnect Gen.DatabaseTr.addConnection processConnect healthAcceptsConnect
-  have hfresh' : Server.hasConn { s with nextId := s.nextId + 1 } s.nextId = false := hfresh
-  by_cases h1 : s.op = .running
-  · by_cases h3 : s.password = pw
-    · by_cases h4 : s.maxSessions ≤ s.conns.length
-      · cases hh : s.health <;> simp [h1, h3, h4, hh]
-      · cases hh : s.health <;> simp [h1, h3, h4, hh, hfresh', Server.hasConn] <;> simp_all [Server.hasConn]
-    · cases hh : s.health <;> simp [h1, h3, hh]
-  · simp [h1]
+/-! ## 9. (the theorems about the translated source are in Props/C17Recv.lean, C17Ftp.lean, C17Client.lean) -/
 
 /-- The freshness hypothesis holds in every well-formed state, hence (`C17_table_wellformed_run`) along every run. -/
 theorem C17_tr_fresh_of_wf (s : Server) (h : s.WF) : s.hasConn s.nextId = false := by
